@@ -1,7 +1,1184 @@
-//! C08 — not built yet.
-use vcore::Ctx;
+//! C08 — built-in input validators accept exactly the values satisfying their predicate.
+//!
+//! One derive-built schema (built once per validation mode) whose arguments and input-object fields carry the
+//! validators, with the bounds fixed at compile time and mirrored in `fields()`. A case is a query of 1..3 aliased fields;
+//! the observable is the resolver log (alias pushed on invocation) and `Response.errors[*].path`.
+//! The oracle evaluates every predicate exactly (integers in i128, float-vs-integer through floor / ceil,
+//! float multiples through the binary expansion, byte and scalar counts, hand-written matchers for the three
+//! fixed patterns).
+use async_graphql::{Context, EmptyMutation, EmptySubscription, InputObject, Name, Number, Object, PathSegment, Request, Schema, ValidationMode, Value, Variables, ID};
+use indexmap::IndexMap;
+use std::cell::RefCell;
+use std::time::Instant;
+use vcore::gens::gen_f64_finite;
+use vcore::{Case, Ctx, Src};
 
-pub fn run(_ctx: &mut Ctx) {
-    eprintln!("C08: check not built yet");
-    std::process::exit(2);
+/// unsigned value above i64::MAX meets an integer-literal bound: compared after a wrapping cast to i64
+const F1: &str = "C08-F1";
+/// float value that is not an i64 (fractional, or beyond the i64 range) meets an integer-literal bound:
+/// compared after a truncating, saturating cast to i64
+const F2: &str = "C08-F2";
+/// integer value of magnitude above 2^53 meets a float-literal bound: compared after rounding to f64
+const F3: &str = "C08-F3";
+
+thread_local! {
+    static LOG: RefCell<Vec<String>> = const { RefCell::new(Vec::new()) };
+}
+fn hit(ctx: &Context<'_>) -> Option<bool> {
+    let f = ctx.field();
+    let key = f.alias().unwrap_or(f.name()).to_string();
+    LOG.with(|l| l.borrow_mut().push(key));
+    Some(true)
+}
+
+// ------------------------------------------------------------------------------------------------------------
+// the schemas (bounds here are mirrored in `fields()` below)
+
+#[derive(InputObject)]
+struct In {
+    #[graphql(validator(maximum = 10))]
+    a: i32,
+    #[graphql(validator(min_length = 2))]
+    s: String,
+    #[graphql(validator(list, minimum = 1))]
+    l: Vec<i64>,
+    #[graphql(validator(maximum = 1))]
+    f: f64,
+    #[graphql(validator(max_items = 2))]
+    m: Vec<String>,
+}
+#[derive(InputObject)]
+struct Outer {
+    inner: In,
+    #[graphql(validator(chars_min_length = 1))]
+    t: String,
+}
+#[derive(InputObject)]
+struct InU {
+    #[graphql(validator(minimum = 5))]
+    u: u64,
+    #[graphql(validator(list, maximum = 9))]
+    l: Vec<u32>,
+}
+
+struct Q;
+#[Object(rename_fields = "camelCase")]
+#[allow(unused_variables)]
+impl Q {
+    async fn max_i8(&self, ctx: &Context<'_>, #[graphql(validator(maximum = 100))] n: i8) -> Option<bool> {
+        hit(ctx)
+    }
+    async fn min_i8(&self, ctx: &Context<'_>, #[graphql(validator(minimum = 5))] n: i8) -> Option<bool> {
+        hit(ctx)
+    }
+    async fn range_i32(&self, ctx: &Context<'_>, #[graphql(validator(minimum = 3, maximum = 7))] n: i32) -> Option<bool> {
+        hit(ctx)
+    }
+    async fn max_i32(&self, ctx: &Context<'_>, #[graphql(validator(maximum = 2147483646))] n: i32) -> Option<bool> {
+        hit(ctx)
+    }
+    async fn min_i64(&self, ctx: &Context<'_>, #[graphql(validator(minimum = 9007199254740993))] n: i64) -> Option<bool> {
+        hit(ctx)
+    }
+    async fn max_i64(&self, ctx: &Context<'_>, #[graphql(validator(maximum = 0))] n: i64) -> Option<bool> {
+        hit(ctx)
+    }
+    async fn mul_i32(&self, ctx: &Context<'_>, #[graphql(validator(multiple_of = 3))] n: i32) -> Option<bool> {
+        hit(ctx)
+    }
+    async fn mul_i64(&self, ctx: &Context<'_>, #[graphql(validator(multiple_of = 10, maximum = 1000))] n: i64) -> Option<bool> {
+        hit(ctx)
+    }
+    async fn max_i64f(&self, ctx: &Context<'_>, #[graphql(validator(maximum = 9007199254740992.0))] n: i64) -> Option<bool> {
+        hit(ctx)
+    }
+    async fn min_i64f(&self, ctx: &Context<'_>, #[graphql(validator(minimum = 0.5))] n: i64) -> Option<bool> {
+        hit(ctx)
+    }
+    async fn max_f64i(&self, ctx: &Context<'_>, #[graphql(validator(maximum = 10))] n: f64) -> Option<bool> {
+        hit(ctx)
+    }
+    async fn min_f64i(&self, ctx: &Context<'_>, #[graphql(validator(minimum = 0))] n: f64) -> Option<bool> {
+        hit(ctx)
+    }
+    async fn mul_f64i(&self, ctx: &Context<'_>, #[graphql(validator(multiple_of = 2))] n: f64) -> Option<bool> {
+        hit(ctx)
+    }
+    async fn max_f64(&self, ctx: &Context<'_>, #[graphql(validator(maximum = 10.5))] n: f64) -> Option<bool> {
+        hit(ctx)
+    }
+    async fn min_f64(&self, ctx: &Context<'_>, #[graphql(validator(minimum = 0.1))] n: f64) -> Option<bool> {
+        hit(ctx)
+    }
+    async fn mul_f64(&self, ctx: &Context<'_>, #[graphql(validator(multiple_of = 2.5))] n: f64) -> Option<bool> {
+        hit(ctx)
+    }
+    async fn max_f32(&self, ctx: &Context<'_>, #[graphql(validator(maximum = 0.1))] n: f32) -> Option<bool> {
+        hit(ctx)
+    }
+    async fn min_f32i(&self, ctx: &Context<'_>, #[graphql(validator(minimum = 16777216))] n: f32) -> Option<bool> {
+        hit(ctx)
+    }
+    async fn max_len(&self, ctx: &Context<'_>, #[graphql(validator(max_length = 5))] n: String) -> Option<bool> {
+        hit(ctx)
+    }
+    async fn min_len(&self, ctx: &Context<'_>, #[graphql(validator(min_length = 3))] n: String) -> Option<bool> {
+        hit(ctx)
+    }
+    async fn chars_max(&self, ctx: &Context<'_>, #[graphql(validator(chars_max_length = 5))] n: String) -> Option<bool> {
+        hit(ctx)
+    }
+    async fn chars_min(&self, ctx: &Context<'_>, #[graphql(validator(chars_min_length = 3))] n: String) -> Option<bool> {
+        hit(ctx)
+    }
+    async fn len_all(&self, ctx: &Context<'_>, #[graphql(validator(min_length = 2, max_length = 6, chars_max_length = 4))] n: String) -> Option<bool> {
+        hit(ctx)
+    }
+    async fn re_digits(&self, ctx: &Context<'_>, #[graphql(validator(regex = "^[0-9]+$"))] n: String) -> Option<bool> {
+        hit(ctx)
+    }
+    async fn re_abc(&self, ctx: &Context<'_>, #[graphql(validator(regex = "ab+c"))] n: String) -> Option<bool> {
+        hit(ctx)
+    }
+    async fn re_counted(&self, ctx: &Context<'_>, #[graphql(validator(regex = "^[a-c]{2,4}x?$"))] n: String) -> Option<bool> {
+        hit(ctx)
+    }
+    async fn id_len(&self, ctx: &Context<'_>, #[graphql(validator(max_length = 4))] n: ID) -> Option<bool> {
+        hit(ctx)
+    }
+    async fn max_items(&self, ctx: &Context<'_>, #[graphql(validator(max_items = 3))] n: Vec<i32>) -> Option<bool> {
+        hit(ctx)
+    }
+    async fn min_items(&self, ctx: &Context<'_>, #[graphql(validator(min_items = 2))] n: Vec<String>) -> Option<bool> {
+        hit(ctx)
+    }
+    async fn list_max(&self, ctx: &Context<'_>, #[graphql(validator(list, maximum = 3))] n: Vec<i32>) -> Option<bool> {
+        hit(ctx)
+    }
+    async fn list_str(&self, ctx: &Context<'_>, #[graphql(validator(list, max_length = 3, max_items = 2))] n: Vec<String>) -> Option<bool> {
+        hit(ctx)
+    }
+    async fn list_re(&self, ctx: &Context<'_>, #[graphql(validator(list, regex = "^[0-9]+$"))] n: Vec<String>) -> Option<bool> {
+        hit(ctx)
+    }
+    async fn list_f(&self, ctx: &Context<'_>, #[graphql(validator(list, minimum = 1, min_items = 1))] n: Vec<f64>) -> Option<bool> {
+        hit(ctx)
+    }
+    async fn opt_list(&self, ctx: &Context<'_>, #[graphql(validator(list, multiple_of = 5))] n: Option<Vec<i64>>) -> Option<bool> {
+        hit(ctx)
+    }
+    async fn min_i8_neg(&self, ctx: &Context<'_>, #[graphql(validator(minimum = -5))] n: i8) -> Option<bool> {
+        hit(ctx)
+    }
+    async fn max_i64_neg(&self, ctx: &Context<'_>, #[graphql(validator(maximum = -9007199254740993))] n: i64) -> Option<bool> {
+        hit(ctx)
+    }
+    async fn mul_i64_neg(&self, ctx: &Context<'_>, #[graphql(validator(multiple_of = -3))] n: i64) -> Option<bool> {
+        hit(ctx)
+    }
+    async fn min_f64_neg(&self, ctx: &Context<'_>, #[graphql(validator(minimum = -2.25))] n: f64) -> Option<bool> {
+        hit(ctx)
+    }
+    async fn min_f64i_neg(&self, ctx: &Context<'_>, #[graphql(validator(minimum = -1))] n: f64) -> Option<bool> {
+        hit(ctx)
+    }
+    async fn max_f64i_neg(&self, ctx: &Context<'_>, #[graphql(validator(maximum = -1))] n: f64) -> Option<bool> {
+        hit(ctx)
+    }
+    async fn min_u64_neg(&self, ctx: &Context<'_>, #[graphql(validator(minimum = -1))] n: u64) -> Option<bool> {
+        hit(ctx)
+    }
+    async fn obj(&self, ctx: &Context<'_>, input: In) -> Option<bool> {
+        hit(ctx)
+    }
+    async fn nested(&self, ctx: &Context<'_>, input: Outer) -> Option<bool> {
+        hit(ctx)
+    }
+    async fn max_u64(&self, ctx: &Context<'_>, #[graphql(validator(maximum = 100))] n: u64) -> Option<bool> {
+        hit(ctx)
+    }
+    async fn min_u64(&self, ctx: &Context<'_>, #[graphql(validator(minimum = 100))] n: u64) -> Option<bool> {
+        hit(ctx)
+    }
+    async fn max_u64_big(&self, ctx: &Context<'_>, #[graphql(validator(maximum = 9223372036854775807))] n: u64) -> Option<bool> {
+        hit(ctx)
+    }
+    async fn mul_u64(&self, ctx: &Context<'_>, #[graphql(validator(multiple_of = 7))] n: u64) -> Option<bool> {
+        hit(ctx)
+    }
+    async fn max_u8(&self, ctx: &Context<'_>, #[graphql(validator(maximum = 200))] n: u8) -> Option<bool> {
+        hit(ctx)
+    }
+    async fn min_u16(&self, ctx: &Context<'_>, #[graphql(validator(minimum = 1000))] n: u16) -> Option<bool> {
+        hit(ctx)
+    }
+    async fn max_u32(&self, ctx: &Context<'_>, #[graphql(validator(maximum = 4294967294))] n: u32) -> Option<bool> {
+        hit(ctx)
+    }
+    async fn max_usize(&self, ctx: &Context<'_>, #[graphql(validator(maximum = 100))] n: usize) -> Option<bool> {
+        hit(ctx)
+    }
+    async fn max_u64f(&self, ctx: &Context<'_>, #[graphql(validator(maximum = 1e19))] n: u64) -> Option<bool> {
+        hit(ctx)
+    }
+    async fn list_u64(&self, ctx: &Context<'_>, #[graphql(validator(list, minimum = 1))] n: Vec<u64>) -> Option<bool> {
+        hit(ctx)
+    }
+    async fn obj_u(&self, ctx: &Context<'_>, input: InU) -> Option<bool> {
+        hit(ctx)
+    }
+}
+
+// ------------------------------------------------------------------------------------------------------------
+// the mirror table
+
+#[derive(Clone, Copy, Debug, PartialEq)]
+enum Re {
+    /// ^[0-9]+$
+    Digits,
+    /// ab+c (unanchored)
+    Abc,
+    /// ^[a-c]{2,4}x?$
+    Counted,
+}
+#[derive(Clone, Copy, Debug, PartialEq)]
+enum P {
+    MaxI(i64),
+    MinI(i64),
+    MulI(i64),
+    MaxF(f64),
+    MinF(f64),
+    /// multiple_of = half / 2 (a float literal)
+    MulHalves(i64),
+    MaxLen(usize),
+    MinLen(usize),
+    CharsMax(usize),
+    CharsMin(usize),
+    MaxItems(usize),
+    MinItems(usize),
+    Regex(Re),
+}
+#[derive(Clone, Copy, Debug, PartialEq)]
+enum K {
+    Int { lo: i128, hi: i128 },
+    F32,
+    F64,
+    Str,
+}
+const I8: K = K::Int { lo: i8::MIN as i128, hi: i8::MAX as i128 };
+const I32: K = K::Int { lo: i32::MIN as i128, hi: i32::MAX as i128 };
+const I64: K = K::Int { lo: i64::MIN as i128, hi: i64::MAX as i128 };
+const U8: K = K::Int { lo: 0, hi: u8::MAX as i128 };
+const U16: K = K::Int { lo: 0, hi: u16::MAX as i128 };
+const U32: K = K::Int { lo: 0, hi: u32::MAX as i128 };
+const U64: K = K::Int { lo: 0, hi: u64::MAX as i128 };
+
+/// an argument or input-object field carrying validators
+#[derive(Clone, Debug)]
+struct Slot {
+    k: K,
+    /// the value is a list of `k`
+    is_list: bool,
+    /// the `list` flag: element predicates apply to every element
+    elemwise: bool,
+    preds: Vec<P>,
+}
+#[derive(Clone, Debug)]
+enum Sh {
+    Leaf(Slot),
+    Obj(Vec<(&'static str, Sh)>),
+}
+#[derive(Clone, Debug)]
+struct Field {
+    name: &'static str,
+    arg: &'static str,
+    /// GraphQL type of the argument (for variable declarations)
+    gql: &'static str,
+    sh: Sh,
+}
+
+fn one(k: K, preds: &[P]) -> Sh {
+    Sh::Leaf(Slot { k, is_list: false, elemwise: false, preds: preds.to_vec() })
+}
+fn list(k: K, elemwise: bool, preds: &[P]) -> Sh {
+    Sh::Leaf(Slot { k, is_list: true, elemwise, preds: preds.to_vec() })
+}
+fn shape_in() -> Sh {
+    Sh::Obj(vec![
+        ("a", one(I32, &[P::MaxI(10)])),
+        ("s", one(K::Str, &[P::MinLen(2)])),
+        ("l", list(I64, true, &[P::MinI(1)])),
+        ("f", one(K::F64, &[P::MaxI(1)])),
+        ("m", list(K::Str, false, &[P::MaxItems(2)])),
+    ])
+}
+
+fn fields() -> Vec<Field> {
+    let f = |name, gql, sh| Field { name, arg: "n", gql, sh };
+    vec![
+        f("maxI8", "Int!", one(I8, &[P::MaxI(100)])),
+        f("minI8", "Int!", one(I8, &[P::MinI(5)])),
+        f("rangeI32", "Int!", one(I32, &[P::MinI(3), P::MaxI(7)])),
+        f("maxI32", "Int!", one(I32, &[P::MaxI(2147483646)])),
+        f("minI64", "Int!", one(I64, &[P::MinI(9007199254740993)])),
+        f("maxI64", "Int!", one(I64, &[P::MaxI(0)])),
+        f("mulI32", "Int!", one(I32, &[P::MulI(3)])),
+        f("mulI64", "Int!", one(I64, &[P::MulI(10), P::MaxI(1000)])),
+        f("maxI64f", "Int!", one(I64, &[P::MaxF(9007199254740992.0)])),
+        f("minI64f", "Int!", one(I64, &[P::MinF(0.5)])),
+        f("maxF64i", "Float!", one(K::F64, &[P::MaxI(10)])),
+        f("minF64i", "Float!", one(K::F64, &[P::MinI(0)])),
+        f("mulF64i", "Float!", one(K::F64, &[P::MulI(2)])),
+        f("maxF64", "Float!", one(K::F64, &[P::MaxF(10.5)])),
+        f("minF64", "Float!", one(K::F64, &[P::MinF(0.1)])),
+        f("mulF64", "Float!", one(K::F64, &[P::MulHalves(5)])),
+        f("maxF32", "Float!", one(K::F32, &[P::MaxF(0.1)])),
+        f("minF32i", "Float!", one(K::F32, &[P::MinI(16777216)])),
+        f("maxLen", "String!", one(K::Str, &[P::MaxLen(5)])),
+        f("minLen", "String!", one(K::Str, &[P::MinLen(3)])),
+        f("charsMax", "String!", one(K::Str, &[P::CharsMax(5)])),
+        f("charsMin", "String!", one(K::Str, &[P::CharsMin(3)])),
+        f("lenAll", "String!", one(K::Str, &[P::MinLen(2), P::MaxLen(6), P::CharsMax(4)])),
+        f("reDigits", "String!", one(K::Str, &[P::Regex(Re::Digits)])),
+        f("reAbc", "String!", one(K::Str, &[P::Regex(Re::Abc)])),
+        f("reCounted", "String!", one(K::Str, &[P::Regex(Re::Counted)])),
+        f("idLen", "ID!", one(K::Str, &[P::MaxLen(4)])),
+        f("maxItems", "[Int!]!", list(I32, false, &[P::MaxItems(3)])),
+        f("minItems", "[String!]!", list(K::Str, false, &[P::MinItems(2)])),
+        f("listMax", "[Int!]!", list(I32, true, &[P::MaxI(3)])),
+        f("listStr", "[String!]!", list(K::Str, true, &[P::MaxLen(3), P::MaxItems(2)])),
+        f("listRe", "[String!]!", list(K::Str, true, &[P::Regex(Re::Digits)])),
+        f("listF", "[Float!]!", list(K::F64, true, &[P::MinI(1), P::MinItems(1)])),
+        f("optList", "[Int!]", list(I64, true, &[P::MulI(5)])),
+        f("minI8Neg", "Int!", one(I8, &[P::MinI(-5)])),
+        f("maxI64Neg", "Int!", one(I64, &[P::MaxI(-9007199254740993)])),
+        f("mulI64Neg", "Int!", one(I64, &[P::MulI(-3)])),
+        f("minF64Neg", "Float!", one(K::F64, &[P::MinF(-2.25)])),
+        f("minF64iNeg", "Float!", one(K::F64, &[P::MinI(-1)])),
+        f("maxF64iNeg", "Float!", one(K::F64, &[P::MaxI(-1)])),
+        f("minU64Neg", "Int!", one(U64, &[P::MinI(-1)])),
+        Field { name: "obj", arg: "input", gql: "In!", sh: shape_in() },
+        Field {
+            name: "nested",
+            arg: "input",
+            gql: "Outer!",
+            sh: Sh::Obj(vec![("inner", shape_in()), ("t", one(K::Str, &[P::CharsMin(1)]))]),
+        },
+        f("maxU64", "Int!", one(U64, &[P::MaxI(100)])),
+        f("minU64", "Int!", one(U64, &[P::MinI(100)])),
+        f("maxU64Big", "Int!", one(U64, &[P::MaxI(i64::MAX)])),
+        f("mulU64", "Int!", one(U64, &[P::MulI(7)])),
+        f("maxU8", "Int!", one(U8, &[P::MaxI(200)])),
+        f("minU16", "Int!", one(U16, &[P::MinI(1000)])),
+        f("maxU32", "Int!", one(U32, &[P::MaxI(4294967294)])),
+        f("maxUsize", "Int!", one(U64, &[P::MaxI(100)])),
+        f("maxU64f", "Int!", one(U64, &[P::MaxF(1e19)])),
+        f("listU64", "[Int!]!", list(U64, true, &[P::MinI(1)])),
+        Field {
+            name: "objU",
+            arg: "input",
+            gql: "InU!",
+            sh: Sh::Obj(vec![("u", one(U64, &[P::MinI(5)])), ("l", list(U32, true, &[P::MaxI(9)]))]),
+        },
+    ]
+}
+
+// ------------------------------------------------------------------------------------------------------------
+// values and the exact oracle
+
+#[derive(Clone, Debug, PartialEq)]
+enum V {
+    I(i128),
+    /// for an f32 slot the number is exactly representable in f32
+    F(f64),
+    S(String),
+    L(Vec<V>),
+    O(Vec<(&'static str, V)>),
+}
+
+/// one flag per finding: which conversion quirks are switched on / which findings are open / which constructs occur
+#[derive(Clone, Copy, Default, PartialEq, Debug)]
+struct Quirks {
+    f1: bool,
+    f2: bool,
+    f3: bool,
+}
+
+const TWO53: i128 = 1 << 53;
+
+/// `(f * 2^shift) mod m` if `f * 2^shift` is an integer (else None), exact for every finite magnitude
+fn f64_mod(f: f64, shift: i32, m: i128) -> Option<i128> {
+    if f == 0.0 {
+        return Some(0);
+    }
+    let bits = f.to_bits();
+    let exp = ((bits >> 52) & 0x7ff) as i32;
+    let frac = (bits & ((1u64 << 52) - 1)) as i128;
+    let (mant, e) = if exp == 0 { (frac, -1074 + shift) } else { (frac | (1 << 52), exp - 1075 + shift) };
+    let sign = if f < 0.0 { -1 } else { 1 };
+    if e >= 0 {
+        let mut r = mant % m;
+        for _ in 0..e {
+            r = (r * 2) % m;
+        }
+        Some(sign * r)
+    } else if -e >= 64 || mant & ((1i128 << -e) - 1) != 0 {
+        None
+    } else {
+        Some(sign * ((mant >> -e) % m))
+    }
+}
+
+fn re_match(re: Re, s: &str) -> bool {
+    let cs: Vec<char> = s.chars().collect();
+    match re {
+        Re::Digits => !cs.is_empty() && cs.iter().all(|c| c.is_ascii_digit()),
+        Re::Abc => (0..cs.len()).any(|i| {
+            if cs[i] != 'a' {
+                return false;
+            }
+            let mut j = i + 1;
+            while j < cs.len() && cs[j] == 'b' {
+                j += 1;
+            }
+            j > i + 1 && j < cs.len() && cs[j] == 'c'
+        }),
+        Re::Counted => {
+            let body: &[char] = if cs.last() == Some(&'x') { &cs[..cs.len() - 1] } else { &cs };
+            (2..=4).contains(&body.len()) && body.iter().all(|c| ('a'..='c').contains(c))
+        }
+    }
+}
+
+/// one predicate on one non-list value; `q` switches the implementation's lossy conversions on
+fn pred(p: P, v: &V, q: Quirks) -> bool {
+    match (p, v) {
+        (P::MaxI(b), V::I(x)) => int_for_int_bound(*x, q) <= b as i128,
+        (P::MinI(b), V::I(x)) => int_for_int_bound(*x, q) >= b as i128,
+        (P::MulI(m), V::I(x)) => int_for_int_bound(*x, q) % m as i128 == 0,
+        (P::MaxI(b), V::F(f)) => {
+            if q.f2 {
+                (*f as i64) <= b
+            } else {
+                f.ceil() as i128 <= b as i128 // f <= b  <=>  ceil(f) <= b for integer b
+            }
+        }
+        (P::MinI(b), V::F(f)) => {
+            if q.f2 {
+                (*f as i64) >= b
+            } else {
+                f.floor() as i128 >= b as i128
+            }
+        }
+        (P::MulI(m), V::F(f)) => {
+            if q.f2 {
+                let t = *f as i64;
+                t != 0 && t % m == 0
+            } else {
+                f64_mod(*f, 0, m as i128) == Some(0)
+            }
+        }
+        (P::MaxF(b), V::I(x)) => {
+            if q.f3 {
+                (*x as f64) <= b
+            } else {
+                *x <= b.floor() as i128 // x <= b  <=>  x <= floor(b) for integer x
+            }
+        }
+        (P::MinF(b), V::I(x)) => {
+            if q.f3 {
+                (*x as f64) >= b
+            } else {
+                *x >= b.ceil() as i128
+            }
+        }
+        (P::MaxF(b), V::F(f)) => *f <= b,
+        (P::MinF(b), V::F(f)) => *f >= b,
+        // f is a multiple of h/2  <=>  2f is an integer multiple of h
+        (P::MulHalves(h), V::F(f)) => f64_mod(*f, 1, h as i128) == Some(0),
+        (P::MaxLen(n), V::S(s)) => s.len() <= n,
+        (P::MinLen(n), V::S(s)) => s.len() >= n,
+        (P::CharsMax(n), V::S(s)) => s.chars().count() <= n,
+        (P::CharsMin(n), V::S(s)) => s.chars().count() >= n,
+        (P::Regex(r), V::S(s)) => re_match(r, s),
+        _ => panic!("table error: predicate {:?} on value {:?}", p, v),
+    }
+}
+fn int_for_int_bound(x: i128, q: Quirks) -> i128 {
+    if q.f1 && x > i64::MAX as i128 {
+        x - (1i128 << 64) // wrapping cast u64 -> i64
+    } else {
+        x
+    }
+}
+
+fn eval(sh: &Sh, v: &V, q: Quirks) -> bool {
+    match (sh, v) {
+        (Sh::Obj(fs), V::O(vs)) => fs.iter().zip(vs).all(|((_, s), (_, x))| eval(s, x, q)),
+        (Sh::Leaf(sl), V::L(items)) if sl.is_list => sl.preds.iter().all(|p| match p {
+            P::MaxItems(n) => items.len() <= *n,
+            P::MinItems(n) => items.len() >= *n,
+            p => {
+                assert!(sl.elemwise, "table error: element predicate without list flag");
+                items.iter().all(|x| pred(*p, x, q))
+            }
+        }),
+        (Sh::Leaf(sl), x) if !sl.is_list => sl.preds.iter().all(|p| pred(*p, x, q)),
+        _ => panic!("table error: shape {:?} value {:?}", sh, v),
+    }
+}
+
+/// which finding constructs does this value contain (value class meets bound class)?
+fn constructs(sh: &Sh, v: &V, out: &mut Quirks) {
+    match (sh, v) {
+        (Sh::Obj(fs), V::O(vs)) => fs.iter().zip(vs).for_each(|((_, s), (_, x))| constructs(s, x, out)),
+        (Sh::Leaf(sl), V::L(items)) => items.iter().for_each(|x| leaf_constructs(sl, x, out)),
+        (Sh::Leaf(sl), x) => leaf_constructs(sl, x, out),
+        _ => {}
+    }
+}
+fn leaf_constructs(sl: &Slot, v: &V, out: &mut Quirks) {
+    let int_bound = sl.preds.iter().any(|p| matches!(p, P::MaxI(_) | P::MinI(_) | P::MulI(_)));
+    let float_bound = sl.preds.iter().any(|p| matches!(p, P::MaxF(_) | P::MinF(_) | P::MulHalves(_)));
+    match v {
+        V::I(x) => {
+            out.f1 |= int_bound && *x > i64::MAX as i128;
+            out.f3 |= float_bound && x.abs() > TWO53;
+        }
+        V::F(f) => out.f2 |= int_bound && !f64_is_i64(*f),
+        _ => {}
+    }
+}
+fn f64_is_i64(f: f64) -> bool {
+    f.fract() == 0.0 && f >= -9223372036854775808.0 && f < 9223372036854775808.0
+}
+
+/// is some scalar at, or one step from, a bound of one of its predicates (the interesting neighbourhood)?
+fn near_bound(sh: &Sh, v: &V) -> bool {
+    match (sh, v) {
+        (Sh::Obj(fs), V::O(vs)) => fs.iter().zip(vs).any(|((_, s), (_, x))| near_bound(s, x)),
+        (Sh::Leaf(sl), V::L(items)) => {
+            sl.preds.iter().any(|p| matches!(p, P::MaxItems(n) | P::MinItems(n) if items.len().abs_diff(*n) <= 1)) || items.iter().any(|x| leaf_near(sl, x))
+        }
+        (Sh::Leaf(sl), x) => leaf_near(sl, x),
+        _ => false,
+    }
+}
+fn leaf_near(sl: &Slot, v: &V) -> bool {
+    sl.preds.iter().any(|p| match (p, v) {
+        (P::MaxI(b) | P::MinI(b), V::I(x)) => (x - *b as i128).abs() <= 1,
+        (P::MaxI(b) | P::MinI(b), V::F(f)) => (f - *b as f64).abs() <= 1.0,
+        (P::MaxF(b) | P::MinF(b), V::I(x)) => (*x as f64 - b).abs() <= 1.0,
+        (P::MaxF(b) | P::MinF(b), V::F(f)) => (f - b).abs() <= 1.0,
+        (P::MulI(m), V::I(x)) => (x % *m as i128).abs() <= 1 || (x % *m as i128).abs() == (*m as i128).abs() - 1,
+        (P::MulI(_) | P::MulHalves(_), V::F(_)) => true,
+        (P::MaxLen(n) | P::MinLen(n), V::S(s)) => s.len().abs_diff(*n) <= 1,
+        (P::CharsMax(n) | P::CharsMin(n), V::S(s)) => s.chars().count().abs_diff(*n) <= 1,
+        (P::Regex(_), V::S(_)) => true,
+        _ => false,
+    })
+}
+
+// ------------------------------------------------------------------------------------------------------------
+// generators
+
+/// which constructs the generator may produce: those of the three findings, and unsigned values above i64::MAX at
+/// all (strict validation rejects them as not of type Int before any validator runs)
+#[derive(Clone, Copy, Default)]
+struct Allow {
+    f1: bool,
+    f2: bool,
+    f3: bool,
+    above_i64: bool,
+}
+
+fn next_up(f: f64) -> f64 {
+    if f == 0.0 {
+        return 5e-324;
+    }
+    let b = f.to_bits();
+    f64::from_bits(if f > 0.0 { b + 1 } else { b - 1 })
+}
+fn next_down(f: f64) -> f64 {
+    -next_up(-f)
+}
+
+fn int_candidates(sl: &Slot, lo: i128, hi: i128) -> Vec<i128> {
+    let mut c = vec![0, 1, -1, 2, lo, lo + 1, hi, hi - 1, i64::MAX as i128 - 1, i64::MAX as i128, i64::MAX as i128 + 1, i64::MAX as i128 + 2, (1i128 << 63) + 100, u64::MAX as i128 - 5, TWO53 - 1, TWO53, TWO53 + 1, -TWO53 - 1];
+    for p in &sl.preds {
+        match p {
+            P::MaxI(b) | P::MinI(b) => c.extend((-2..=2).map(|d| *b as i128 + d)),
+            P::MulI(m) => {
+                for k in [1i128, 2, -1, -3, 14, 1000, 1 << 40, (1i128 << 63) / *m as i128 + 1, u64::MAX as i128 / *m as i128] {
+                    c.extend([k * *m as i128 - 1, k * *m as i128, k * *m as i128 + 1]);
+                }
+            }
+            P::MaxF(b) | P::MinF(b) => {
+                c.extend((-2..=2).map(|d| b.floor() as i128 + d));
+                c.push(b.ceil() as i128);
+            }
+            _ => {}
+        }
+    }
+    c
+}
+
+fn gen_int(sl: &Slot, lo: i128, hi: i128, s: &mut dyn Src, allow: Allow) -> i128 {
+    let c = int_candidates(sl, lo, hi);
+    let mut v = match s.weighted(&[6, 1, 1]) {
+        0 => c[s.choose(c.len())],
+        1 => s.range(-20, 20) as i128,
+        _ => {
+            if hi > i64::MAX as i128 {
+                s.u64() as i128
+            } else {
+                s.range(lo.max(i64::MIN as i128) as i64, hi as i64) as i128
+            }
+        }
+    };
+    v = v.clamp(lo, hi);
+    let int_bound = sl.preds.iter().any(|p| matches!(p, P::MaxI(_) | P::MinI(_) | P::MulI(_)));
+    let float_bound = sl.preds.iter().any(|p| matches!(p, P::MaxF(_) | P::MinF(_)));
+    if (!allow.above_i64 || (!allow.f1 && int_bound)) && v > i64::MAX as i128 {
+        v = i64::MAX as i128 - (v & 0xff);
+    }
+    if !allow.f3 && float_bound && v.abs() > TWO53 {
+        v = v.signum() * (TWO53 - (v.abs() & 0xff));
+    }
+    if v == 0 {
+        // multiple_of with value 0 is unspecified: never offered
+        if let Some(P::MulI(m)) = sl.preds.iter().find(|p| matches!(p, P::MulI(_))) {
+            v = *m as i128;
+        }
+    }
+    v
+}
+
+fn gen_float(sl: &Slot, s: &mut dyn Src, allow: Allow) -> f64 {
+    let mut c = vec![0.5, -0.5, 1.0, -1.0, 1e300, -1e300, 1e-300, 9.223372036854775807e18, -9.223372036854775808e18, 9007199254740992.0];
+    for p in &sl.preds {
+        let b = match p {
+            P::MaxI(b) | P::MinI(b) => *b as f64,
+            P::MaxF(b) | P::MinF(b) => *b,
+            P::MulI(m) => {
+                let m = *m as f64;
+                c.extend([m, 2.0 * m, -m, m + 0.5, 2.0 * m + 0.5, m * 1e15, m * 3e20, 1e300, m * 0.5, 3.0 * m - 0.25]);
+                continue;
+            }
+            P::MulHalves(h) => {
+                let m = *h as f64 / 2.0;
+                c.extend([m, 2.0 * m, -m, 3.0 * m, m + 0.5, m * 0.5, next_up(m), m * 1e15, m * 4.0 + 0.25]);
+                continue;
+            }
+            _ => continue,
+        };
+        c.extend([b, b + 0.5, b - 0.5, b + 1.0, b - 1.0, b + 0.25, b - 0.25, next_up(b), next_down(b), b + 1e-9, b - 1e-9]);
+    }
+    let mut f = match s.weighted(&[6, 1, 1]) {
+        0 => c[s.choose(c.len())],
+        1 => s.range(-80, 80) as f64 / 4.0,
+        _ => gen_f64_finite(s),
+    };
+    if sl.k == K::F32 {
+        // the value of an f32 slot is an f32: offer only numbers that are one
+        let g = f as f32;
+        f = if g.is_finite() { g as f64 } else { f32::MAX as f64 * f.signum() };
+    }
+    let int_bound = sl.preds.iter().any(|p| matches!(p, P::MaxI(_) | P::MinI(_) | P::MulI(_)));
+    if !allow.f2 && int_bound && !f64_is_i64(f) {
+        f = f.round().clamp(-9.0e18, 9.0e18);
+    }
+    if f == 0.0 {
+        match sl.preds.iter().find(|p| matches!(p, P::MulI(_) | P::MulHalves(_))) {
+            Some(P::MulI(m)) => f = *m as f64,
+            Some(P::MulHalves(h)) => f = *h as f64 / 2.0,
+            _ => {}
+        }
+    }
+    f
+}
+
+fn gen_str(sl: &Slot, s: &mut dyn Src) -> String {
+    if let Some(P::Regex(re)) = sl.preds.iter().find(|p| matches!(p, P::Regex(_))) {
+        let alphabet: &[char] = match re {
+            Re::Digits => &['0', '1', '9', '5', '7', 'a', '\n', '٣', ' ', '-'],
+            Re::Abc => &['a', 'b', 'c', 'b', 'x', 'B'],
+            Re::Counted => &['a', 'b', 'c', 'x', 'd', 'A'],
+        };
+        // index 0..k of the alphabet are the "matching" letters; bias towards them
+        let n = s.choose(7);
+        return (0..n).map(|_| alphabet[if s.chance(1, 5) { s.choose(alphabet.len()) } else { s.choose(4.min(alphabet.len())) }]).collect();
+    }
+    let mut counts: Vec<usize> = vec![0, 1];
+    for p in &sl.preds {
+        if let P::MaxLen(n) | P::MinLen(n) | P::CharsMax(n) | P::CharsMin(n) = p {
+            for w in 1..=4 {
+                counts.extend([(n / w).saturating_sub(1), n / w, n / w + 1]);
+            }
+            counts.push(n + 3);
+        }
+    }
+    let n = counts[s.choose(counts.len())];
+    // width profile: ASCII, 2-, 3-, 4-byte scalars, or mixed
+    let profile = s.choose(5);
+    let wide = ['a', 'é', '中', '😀'];
+    (0..n).map(|_| if profile == 4 { wide[s.choose(4)] } else { wide[profile] }).collect()
+}
+
+fn gen_scalar(sl: &Slot, s: &mut dyn Src, allow: Allow) -> V {
+    match sl.k {
+        K::Int { lo, hi } => V::I(gen_int(sl, lo, hi, s, allow)),
+        K::F32 | K::F64 => V::F(gen_float(sl, s, allow)),
+        K::Str => V::S(gen_str(sl, s)),
+    }
+}
+
+fn gen_value(sh: &Sh, s: &mut dyn Src, allow: Allow) -> V {
+    match sh {
+        Sh::Obj(fs) => V::O(fs.iter().map(|(n, f)| (*n, gen_value(f, s, allow))).collect()),
+        Sh::Leaf(sl) if sl.is_list => {
+            let mut lens = vec![1usize, 0, 2, 3];
+            for p in &sl.preds {
+                if let P::MaxItems(n) | P::MinItems(n) = p {
+                    lens.extend([n.saturating_sub(1), *n, n + 1, n + 2]);
+                }
+            }
+            let n = lens[s.choose(lens.len())];
+            V::L((0..n).map(|_| gen_scalar(sl, s, allow)).collect())
+        }
+        Sh::Leaf(sl) => gen_scalar(sl, s, allow),
+    }
+}
+
+// ------------------------------------------------------------------------------------------------------------
+// rendering, execution, judgement
+
+fn lit_string(s: &str) -> String {
+    let mut out = String::from("\"");
+    for c in s.chars() {
+        match c {
+            '"' => out.push_str("\\\""),
+            '\\' => out.push_str("\\\\"),
+            c if (c as u32) < 0x20 || c as u32 == 0x7f => out.push_str(&format!("\\u{:04x}", c as u32)),
+            c => out.push(c),
+        }
+    }
+    out.push('"');
+    out
+}
+fn literal(v: &V) -> String {
+    match v {
+        V::I(x) => x.to_string(),
+        V::F(f) => format!("{:?}", f), // always carries a fraction or an exponent
+        V::S(s) => lit_string(s),
+        V::L(xs) => format!("[{}]", xs.iter().map(literal).collect::<Vec<_>>().join(", ")),
+        V::O(fs) => format!("{{{}}}", fs.iter().map(|(n, x)| format!("{}: {}", n, literal(x))).collect::<Vec<_>>().join(", ")),
+    }
+}
+fn to_const(v: &V) -> Value {
+    match v {
+        V::I(x) => Value::Number(if *x >= 0 { Number::from(*x as u64) } else { Number::from(*x as i64) }),
+        V::F(f) => Value::Number(Number::from_f64(*f).expect("finite")),
+        V::S(s) => Value::String(s.clone()),
+        V::L(xs) => Value::List(xs.iter().map(to_const).collect()),
+        V::O(fs) => Value::Object(fs.iter().map(|(n, x)| (Name::new(*n), to_const(x))).collect::<IndexMap<_, _>>()),
+    }
+}
+
+/// [strict, fast]
+type Schemas = [Schema<Q, EmptyMutation, EmptySubscription>; 2];
+fn schemas() -> Schemas {
+    [
+        Schema::build(Q, EmptyMutation, EmptySubscription).validation_mode(ValidationMode::Strict).finish(),
+        Schema::build(Q, EmptyMutation, EmptySubscription).validation_mode(ValidationMode::Fast).finish(),
+    ]
+}
+
+/// one aliased field of a query
+struct Inst<'a> {
+    field: &'a Field,
+    value: V,
+    by_variable: bool,
+}
+
+/// run one query and judge every instance
+fn run_query(sc: &Schemas, insts: &[Inst], fast: bool, open: Quirks) -> Case {
+    let mut decls = vec![];
+    let mut sel = vec![];
+    let mut vars = IndexMap::new();
+    for (i, inst) in insts.iter().enumerate() {
+        let arg = if inst.by_variable {
+            decls.push(format!("$v{}: {}", i, inst.field.gql));
+            vars.insert(Name::new(format!("v{}", i)), to_const(&inst.value));
+            format!("$v{}", i)
+        } else {
+            literal(&inst.value)
+        };
+        sel.push(format!("a{}: {}({}: {})", i, inst.field.name, inst.field.arg, arg));
+    }
+    let query = if decls.is_empty() { format!("{{ {} }}", sel.join(" ")) } else { format!("query({}) {{ {} }}", decls.join(", "), sel.join(" ")) };
+    let vars_text = Value::Object(vars.clone()).to_string();
+    let text = format!("mode={} query={} variables={}", if fast { "fast" } else { "strict" }, query, vars_text);
+    let req = Request::new(query).variables(Variables::from_value(Value::Object(vars)));
+    LOG.with(|l| l.borrow_mut().clear());
+    let resp = vcore::det::block_on(sc[fast as usize].execute(req));
+    let log = LOG.with(|l| l.borrow().clone());
+
+    let mut known: Vec<String> = vec![];
+    let mut case_classes: Vec<&'static str> = vec![];
+    let mut nontrivial = false;
+    // errors must all point at one of the aliases
+    for e in &resp.errors {
+        let ok = matches!(e.path.as_slice(), [PathSegment::Field(a)] if a.len() >= 2 && a[1..].parse::<usize>().map(|i| i < insts.len()).unwrap_or(false));
+        if !ok {
+            return Case::fail(text, format!("error that names no field of the query: path={:?} message={}", e.path, e.message));
+        }
+    }
+    for (i, inst) in insts.iter().enumerate() {
+        let alias = format!("a{}", i);
+        let calls = log.iter().filter(|a| **a == alias).count();
+        let errs: Vec<&str> = resp.errors.iter().filter(|e| matches!(e.path.as_slice(), [PathSegment::Field(a)] if *a == alias)).map(|e| e.message.as_str()).collect();
+        // Some(true): the resolver ran; Some(false): a field error names it; None: neither (a sibling's error ended
+        // the request first -- the executor stops at the first failing root field, which is not this property's subject)
+        let actual = match (calls, errs.len()) {
+            (1, 0) => true,
+            (0, 1) => false,
+            (0, 0) if insts.len() > 1 && !resp.errors.is_empty() => {
+                case_classes.push("multi:cut-short-by-sibling-error");
+                if eval(&inst.field.sh, &inst.value, Quirks::default()) {
+                    case_classes.push("expect:reaches-resolver");
+                } else {
+                    case_classes.push("expect:field-error");
+                }
+                continue;
+            }
+            _ => return Case::fail(text, format!("{}: neither one resolver call nor one field error: resolver calls={} errors at its path={:?} all errors={}", alias, calls, errs, resp.errors.len())),
+        };
+        if resp.errors.is_empty() {
+            let data_true = matches!(&resp.data, Value::Object(o) if o.get(alias.as_str()) == Some(&Value::Boolean(true)));
+            if !data_true {
+                return Case::fail(text, format!("{}: no error but the field's data is not `true`: data={}", alias, resp.data));
+            }
+        }
+        let spec = eval(&inst.field.sh, &inst.value, Quirks::default());
+        let mut present = Quirks::default();
+        constructs(&inst.field.sh, &inst.value, &mut present);
+        if present.f1 {
+            case_classes.push("construct:unsigned-above-i64max-vs-int-bound");
+        }
+        if present.f2 {
+            case_classes.push("construct:non-i64-float-vs-int-bound");
+        }
+        if present.f3 {
+            case_classes.push("construct:int-above-2^53-vs-float-bound");
+        }
+        nontrivial |= near_bound(&inst.field.sh, &inst.value) || present != Quirks::default();
+        case_classes.push(if spec { "expect:reaches-resolver" } else { "expect:field-error" });
+        if let V::L(items) = &inst.value {
+            if let Sh::Leaf(sl) = &inst.field.sh {
+                let first_ok_later_bad = sl.elemwise
+                    && items.len() >= 2
+                    && sl.preds.iter().filter(|p| !matches!(p, P::MaxItems(_) | P::MinItems(_))).all(|p| pred(*p, &items[0], Quirks::default()))
+                    && !spec;
+                if first_ok_later_bad {
+                    case_classes.push("list:first-element-ok-later-fails");
+                }
+                if items.is_empty() {
+                    case_classes.push("list:empty");
+                }
+            }
+        }
+        if actual == spec {
+            continue;
+        }
+        // deviation: is it exactly what the open findings whose construct is present predict?
+        let cand = [(F1, present.f1 && open.f1), (F2, present.f2 && open.f2), (F3, present.f3 && open.f3)];
+        let mut explained = None;
+        'subsets: for size in 1..=3 {
+            for mask in 1u32..8 {
+                if mask.count_ones() != size || (0..3).any(|b| mask & (1 << b) != 0 && !cand[b].1) {
+                    continue;
+                }
+                let q = Quirks { f1: mask & 1 != 0, f2: mask & 2 != 0, f3: mask & 4 != 0 };
+                if eval(&inst.field.sh, &inst.value, q) == actual {
+                    explained = Some((0..3).filter(|b| mask & (1 << b) != 0).map(|b| cand[b].0.to_string()).collect::<Vec<_>>());
+                    break 'subsets;
+                }
+            }
+        }
+        match explained {
+            Some(ids) => known.extend(ids),
+            None => {
+                let why = if spec {
+                    format!("{}: the value satisfies every predicate of {} but the resolver was not invoked; error: {:?}", alias, inst.field.name, errs)
+                } else {
+                    format!("{}: the value violates a predicate of {} but the resolver was invoked and no error was reported", alias, inst.field.name)
+                };
+                return Case::fail(text, why);
+            }
+        }
+    }
+    known.sort();
+    known.dedup();
+    let mut c = if known.is_empty() { Case::pass(text) } else { Case::known(text, known) };
+    c = c.nontrivial(nontrivial).class(if fast { "mode:fast" } else { "mode:strict" });
+    if insts.iter().any(|i| i.by_variable) {
+        c = c.class("supply:variable");
+    }
+    if insts.iter().any(|i| !i.by_variable) {
+        c = c.class("supply:literal");
+    }
+    if insts.iter().any(|i| matches!(i.field.sh, Sh::Obj(_))) {
+        c = c.class("input-object");
+    }
+    if insts.iter().any(|i| matches!(&i.value, V::S(s) if s.len() != s.chars().count())) {
+        c = c.class("string:multibyte");
+    }
+    case_classes.sort();
+    case_classes.dedup();
+    for cl in case_classes {
+        c = c.class(cl);
+    }
+    if let [one] = insts {
+        c = c.class(format!("single:{}", one.field.name));
+    }
+    c
+}
+
+/// deterministic neighbourhood of every bound of a slot (no finding constructs unless allowed)
+fn sweep_values(sh: &Sh, allow: Allow) -> Vec<V> {
+    match sh {
+        Sh::Obj(_) => vec![],
+        Sh::Leaf(sl) if sl.is_list => {
+            let elems: Vec<V> = sweep_values(&Sh::Leaf(Slot { is_list: false, ..sl.clone() }), allow);
+            let good: Vec<V> = elems.iter().filter(|x| sl.preds.iter().filter(|p| !matches!(p, P::MaxItems(_) | P::MinItems(_))).all(|p| pred(*p, x, Quirks::default()))).cloned().collect();
+            let g = good.first().cloned().unwrap_or_else(|| elems[0].clone());
+            let mut out = vec![V::L(vec![])];
+            for n in 1..=5 {
+                out.push(V::L(vec![g.clone(); n]));
+            }
+            if sl.elemwise {
+                for e in &elems {
+                    out.push(V::L(vec![e.clone()]));
+                    out.push(V::L(vec![g.clone(), e.clone()]));
+                    out.push(V::L(vec![e.clone(), g.clone()]));
+                }
+            }
+            out
+        }
+        Sh::Leaf(sl) => {
+            let has_mul = sl.preds.iter().any(|p| matches!(p, P::MulI(_) | P::MulHalves(_)));
+            let int_bound = sl.preds.iter().any(|p| matches!(p, P::MaxI(_) | P::MinI(_) | P::MulI(_)));
+            let float_bound = sl.preds.iter().any(|p| matches!(p, P::MaxF(_) | P::MinF(_)));
+            match sl.k {
+                K::Int { lo, hi } => {
+                    let mut c: Vec<i128> = int_candidates(sl, lo, hi).into_iter().filter(|v| *v >= lo && *v <= hi).collect();
+                    c.retain(|v| !(has_mul && *v == 0) && (allow.above_i64 || *v <= i64::MAX as i128) && (allow.f1 || !(int_bound && *v > i64::MAX as i128)) && (allow.f3 || !(float_bound && v.abs() > TWO53)));
+                    c.sort();
+                    c.dedup();
+                    c.into_iter().map(V::I).collect()
+                }
+                K::F32 | K::F64 => {
+                    let mut out: Vec<f64> = vec![];
+                    for p in &sl.preds {
+                        let b = match p {
+                            P::MaxI(b) | P::MinI(b) => *b as f64,
+                            P::MaxF(b) | P::MinF(b) => *b,
+                            P::MulI(m) => {
+                                out.extend([*m as f64, 2.0 * *m as f64, -*m as f64, *m as f64 + 1.0, *m as f64 + 0.5, 1e300, *m as f64 * 1e18 + 2048.0]);
+                                continue;
+                            }
+                            P::MulHalves(h) => {
+                                let m = *h as f64 / 2.0;
+                                out.extend([m, 2.0 * m, -3.0 * m, m + 0.5, m / 2.0, next_up(m), 1e300]);
+                                continue;
+                            }
+                            _ => continue,
+                        };
+                        out.extend([b - 1.0, b - 0.5, next_down(b), b, next_up(b), b + 0.5, b + 1.0, -1e300, 1e300]);
+                    }
+                    if sl.k == K::F32 {
+                        out = out.into_iter().map(|f| f as f32).filter(|g| g.is_finite()).map(|g| g as f64).collect();
+                    }
+                    out.retain(|f| !(has_mul && *f == 0.0) && (allow.f2 || !(int_bound && !f64_is_i64(*f))));
+                    out.into_iter().map(V::F).collect()
+                }
+                K::Str => {
+                    let mut out = vec![];
+                    if let Some(P::Regex(re)) = sl.preds.iter().find(|p| matches!(p, P::Regex(_))) {
+                        let xs: &[&str] = match re {
+                            Re::Digits => &["", "0", "123", "12a3", "a", "123\n", "\n123", " 1", "٣", "1٣", "-1", "1.5"],
+                            Re::Abc => &["", "abc", "abbbc", "ac", "ab", "bc", "xxabcxx", "aabbc", "abxc", "ABC", "a\nbc", "cba"],
+                            Re::Counted => &["", "a", "ab", "abc", "abca", "abcab", "abx", "abcax", "abcabx", "x", "ax", "abd", "abxx", "xab", "AB", "ab\n"],
+                        };
+                        out.extend(xs.iter().map(|s| V::S(s.to_string())));
+                    } else {
+                        for ch in ['a', 'é', '中', '😀'] {
+                            for n in 0..=8 {
+                                out.push(V::S(std::iter::repeat(ch).take(n).collect()));
+                            }
+                        }
+                        out.push(V::S("a\u{301}é中😀".into()));
+                        out.push(V::S("\"\\\n\t ".into()));
+                    }
+                    out
+                }
+            }
+        }
+    }
+}
+
+/// a value of the slot that satisfies its predicates and contains no finding construct
+fn good_value(sh: &Sh) -> V {
+    match sh {
+        Sh::Obj(fs) => V::O(fs.iter().map(|(n, f)| (*n, good_value(f))).collect()),
+        leaf => sweep_values(leaf, Allow::default()).into_iter().find(|v| eval(leaf, v, Quirks::default())).expect("table error: no satisfying value in the sweep"),
+    }
+}
+
+/// for object shapes: vary one leaf through its sweep while the others hold a satisfying value
+fn object_sweep(sh: &Sh, allow: Allow) -> Vec<V> {
+    fn leaves(sh: &Sh, path: &mut Vec<usize>, out: &mut Vec<Vec<usize>>) {
+        match sh {
+            Sh::Obj(fs) => {
+                for (i, (_, f)) in fs.iter().enumerate() {
+                    path.push(i);
+                    leaves(f, path, out);
+                    path.pop();
+                }
+            }
+            Sh::Leaf(_) => out.push(path.clone()),
+        }
+    }
+    fn at<'a>(sh: &'a Sh, path: &[usize]) -> &'a Sh {
+        match (sh, path) {
+            (Sh::Obj(fs), [i, rest @ ..]) => at(&fs[*i].1, rest),
+            _ => sh,
+        }
+    }
+    fn set(v: &mut V, path: &[usize], x: V) {
+        match (v, path) {
+            (V::O(fs), [i, rest @ ..]) => set(&mut fs[*i].1, rest, x),
+            (v, _) => *v = x,
+        }
+    }
+    let mut paths = vec![];
+    leaves(sh, &mut vec![], &mut paths);
+    let base = good_value(sh);
+    let mut out = vec![base.clone()];
+    for p in paths {
+        for x in sweep_values(at(sh, &p), allow) {
+            let mut v = base.clone();
+            set(&mut v, &p, x);
+            out.push(v);
+        }
+    }
+    out
+}
+
+pub fn run(ctx: &mut Ctx) {
+    ctx.rule = "queries of 1..3 aliased fields over two derive-built schemas whose arguments / input-object fields carry every built-in validator \
+                (maximum, minimum, multiple_of with positive and negative integer and float literals on i8/i32/i64/u8/u16/u32/u64/usize/f32/f64; max/min_length, \
+                chars_max/min_length, regex on String and ID; max/min_items and the list forms on Vec), values drawn at, below and above every \
+                bound, supplied as literals or variables, in strict and fast validation mode; first a deterministic sweep of every bound \
+                neighbourhood of every field. Observable: resolver invoked exactly once and no error  <=>  every predicate holds exactly; \
+                otherwise no invocation and exactly one error whose path is the field's alias (in a multi-field query a field after the \
+                first failing one may be cut short: then only 'never invoked when a predicate fails' is demanded of it). Non-trivial = some scalar is at or one step \
+                from a bound of its predicate (or list length from an item bound, or a pattern is involved)"
+        .into();
+    ctx.assume("multiple_of with value 0 (or -0.0) is unspecified (documentation: 'multiple of N'; the crate's unit test rejects 0): never offered");
+    ctx.assume("only values of the declared Rust type are offered (out-of-domain numbers, wrong kinds and nulls are C06/C07's subject); f32 slots are offered only numbers that are exactly f32 values");
+    ctx.assume("bounds are literals that fit i64 / f64 (the derive macro parses integer literals as i64), so unsigned bounds above i64::MAX cannot be expressed; multiple_of = -1 (i64::MIN % -1 overflows) is not part of the table");
+    ctx.assume("AsPrimitive is not implemented for NonZero types, so numeric validators cannot be attached to them (compile error); not covered");
+    ctx.assume("regex is checked against three fixed patterns with hand-written matchers (^[0-9]+$, ab+c, ^[a-c]{2,4}x?$) under the regex crate's documented semantics ($ matches only at the very end, [0-9] is ASCII)");
+    ctx.assume("'an error whose path names the field' = exactly one entry of Response.errors whose path is [alias of the query field]; for input-object fields that is the query field receiving the object");
+    ctx.assume("in strict mode unsigned values above i64::MAX are outside the domain: validation rejects them as not of type Int (the `is_valid` pre-check registered for the name Int is i32's) before any validator runs; they are offered in fast mode only");
+    let open = Quirks { f1: ctx.open(F1), f2: ctx.open(F2), f3: ctx.open(F3) };
+    // per mode [strict, fast]: what the main streams may contain / what the probes add
+    let main_allow = |fast: bool| Allow { f1: !open.f1, f2: !open.f2, f3: !open.f3, above_i64: fast };
+    let probe_allow = |fast: bool| Allow { f1: true, f2: true, f3: true, above_i64: fast };
+    for (id, o) in [(F1, open.f1), (F2, open.f2), (F3, open.f3)] {
+        if o {
+            ctx.excluded(id);
+        }
+    }
+    let sc = schemas();
+    let fs = fields();
+    let sweep = |f: &Field, allow: Allow| match &f.sh {
+        Sh::Obj(_) => object_sweep(&f.sh, allow),
+        leaf => sweep_values(leaf, allow),
+    };
+
+    // ---- deterministic sweep: every field x bound neighbourhood x mode x supply
+    let t0 = Instant::now();
+    let mut n_sw = 0u64;
+    for f in &fs {
+        for fast in [false, true] {
+            for v in sweep(f, main_allow(fast)) {
+                for by_variable in [false, true] {
+                    n_sw += 1;
+                    let c = run_query(&sc, &[Inst { field: f, value: v.clone(), by_variable }], fast, open).class("sweep");
+                    if ctx.check_case("sweep", c, serde_json::json!({"field": f.name})) {
+                        return;
+                    }
+                }
+            }
+        }
+    }
+    ctx.enumerated("sweep", n_sw, true, t0);
+
+    // ---- known-finding probes: the sweep values that carry a construct the main streams leave out
+    let t0 = Instant::now();
+    let mut n_pr = 0u64;
+    for f in &fs {
+        for fast in [false, true] {
+            for v in sweep(f, probe_allow(fast)) {
+                let mut present = Quirks::default();
+                constructs(&f.sh, &v, &mut present);
+                if (present.f1 && open.f1) || (present.f2 && open.f2) || (present.f3 && open.f3) {
+                    for by_variable in [false, true] {
+                        n_pr += 1;
+                        let c = run_query(&sc, &[Inst { field: f, value: v.clone(), by_variable }], fast, open).class("probe");
+                        if ctx.check_case("finding-probe", c, serde_json::json!({"field": f.name})) {
+                            return;
+                        }
+                    }
+                }
+            }
+        }
+    }
+    ctx.enumerated("finding-probe", n_pr, true, t0);
+
+    // ---- random queries
+    let n = ctx.tier.pick(400_000, 10_000_000);
+    let gen_case = |s: &mut dyn Src, probe: bool| -> Case {
+        let fast = s.bool();
+        let allow = if probe { probe_allow(fast) } else { main_allow(fast) };
+        let k = 1 + s.weighted(&[6, 3, 1]);
+        let insts: Vec<Inst> = (0..k)
+            .map(|_| {
+                let field = &fs[s.choose(fs.len())];
+                Inst { field, value: gen_value(&field.sh, s, allow), by_variable: s.bool() }
+            })
+            .collect();
+        run_query(&sc, &insts, fast, open)
+    };
+    ctx.stream("random", n, 96, |s| gen_case(s, false));
+    if ctx.violations() > 0 {
+        return;
+    }
+    if open.f1 || open.f2 || open.f3 {
+        ctx.stream("random-probe", n / 10, 96, |s| gen_case(s, true).class("probe"));
+    }
+
+    ctx.floor("mode:strict", 10_000);
+    ctx.floor("mode:fast", 10_000);
+    ctx.floor("supply:variable", 10_000);
+    ctx.floor("supply:literal", 10_000);
+    ctx.floor("expect:reaches-resolver", 10_000);
+    ctx.floor("expect:field-error", 10_000);
+    ctx.floor("input-object", 2_000);
+    ctx.floor("string:multibyte", 1_000);
+    ctx.floor("list:first-element-ok-later-fails", 300);
+    ctx.floor("list:empty", 300);
 }
